@@ -181,6 +181,55 @@ Theorem C20_single_winner : forall sequential atts sched i p launched reported,
 Proof. exact dial_single_winner_full. Qed.
 Print Assumptions C20_single_winner.
 
+(* ---- hypothesis audit: the complementary cases ------------------------------- *)
+
+(* [id <> []] in C20_matching_presents_id is necessary: the empty id is matched by a
+   hello without any ClaimId.  Real ids are never empty (C20_id_length); dialOne
+   returns GenerateConnectID's error before the id is used. *)
+Theorem C20_matching_empty_id_degenerate :
+  hello_matches [] (GHello ccb_reverse_connect None) = true /\
+  GHello ccb_reverse_connect None <> GHello ccb_reverse_connect (Some []).
+Proof. exact empty_id_matches_absent_claim. Qed.
+Print Assumptions C20_matching_empty_id_degenerate.
+
+(* [echoed <> id] in C20_proxied_echoed_id_rejected, other side: a reply that echoes
+   this request's own id changes nothing either; the right hello is accepted *)
+Theorem C20_proxied_echo_of_own_id_accepted : forall id b e,
+  proxy_attempt id b (PrOk e) (GHello ccb_reverse_connect (Some id)) = mkOut (Returned b) [].
+Proof. exact proxy_echo_of_own_id_accepted. Qed.
+Print Assumptions C20_proxied_echo_of_own_id_accepted.
+
+(* [as_reply_open st = true] in C20_broker_failure, other side: a broker sends one
+   reply per request; after a success reply no further reply is read at all, so a
+   later failure message cannot end the attempt (it ends by the reverse connection
+   or the timeout) *)
+Theorem C20_reply_after_success_not_read : forall id st r,
+  as_reply_open st = false -> att_step id (Running st) (SPickReply r) = Running st.
+Proof. exact reply_after_success_not_read. Qed.
+Print Assumptions C20_reply_after_success_not_read.
+
+(* [as_ctx_done s = false] in C20_accept_loop_in_attempt, other side *)
+Theorem C20_accept_loop_in_attempt_cancelled : forall id s p g r,
+  as_acc s = AsWaiting -> as_ctx_done s = true ->
+  att_step id (Running s) (SArrive p g) =
+    Running (mkAtt (AsDone (AccErr ECtx)) (as_reply_open s) true (as_closed s ++ [p]) (as_backlog s)) /\
+  accept_reversed id true (AConn p g :: r) = (AccErr ECtx, [p]).
+Proof. exact acceptor_agrees_cancelled. Qed.
+Print Assumptions C20_accept_loop_in_attempt_cancelled.
+
+(* [no_stall l] in C20_accept_loop_in_attempt, other side: a stalled greeting after
+   non-matching connections; both descriptions end with the context error and the
+   same connections closed *)
+Theorem C20_accept_loop_in_attempt_stall : forall id l s p,
+  no_stall l -> as_acc s = AsWaiting -> as_ctx_done s = false ->
+  fst (accept_reversed id false (as_conns l)) = AccPending ->
+  exists s', run_attempt_from id (Running s) (arrive_all l ++ [SArrive p GStall; SCtxDone]) = Running s' /\
+    as_acc s' = AsDone (AccErr ECtx) /\
+    fst (accept_reversed id false (as_conns (l ++ [(p, GStall)]))) = AccErr ECtx /\
+    as_closed s' = as_closed s ++ snd (accept_reversed id false (as_conns (l ++ [(p, GStall)]))).
+Proof. exact acceptor_agrees_stall. Qed.
+Print Assumptions C20_accept_loop_in_attempt_stall.
+
 (* ---- non-vacuity ------------------------------------------------------------ *)
 
 Local Open Scope N_scope.
